@@ -5,13 +5,13 @@ cd /repo || exit 2
 if [ -n "$(git status --porcelain)" ]; then echo "/repo not clean"; exit 2; fi
 if ! git apply "$patch" 2>/dev/null; then
   if ! git apply --3way "$patch" 2>/dev/null; then
-    if ! patch -p1 -s --fuzz=3 < "$patch"; then echo "PATCH DOES NOT APPLY"; git checkout -- . ; git clean -fdq; exit 3; fi
+    if ! patch -p1 -s --fuzz=3 < "$patch"; then echo "PATCH DOES NOT APPLY"; git reset -q --hard HEAD; git clean -fdq; exit 3; fi
   fi
   git reset -q
 fi
 /verif/run.sh "$id" "$tier" > /var/tmp/verif-seedtest.$$.log 2>&1; rc=$?
 grep -v "^WARNING" /var/tmp/verif-seedtest.$$.log | grep "violation key\|tier=\|BUILD\|KNOWN" | head -8
 rm -f /var/tmp/verif-seedtest.$$.log
-git checkout -- . ; git clean -fdq -e '*.orig' ; find . -name '*.orig' -o -name '*.rej' | xargs rm -f
+git reset -q --hard HEAD; git clean -fdq -e '*.orig' ; find . -name '*.orig' -o -name '*.rej' | xargs rm -f
 echo "exit=$rc"
 exit $rc
